@@ -14,12 +14,14 @@ open P2sh P2sh.Core
 structure Ctxt where
   code : List Instr
   fd : FnDef
+  cid : Nat
   base : List Val
   callers : List Act
 
-def Ctxt.at (X : Ctxt) (pc : Nat) (stk g : List Val) : FSt := ⟨⟨X.code, X.fd, pc, X.base.length⟩, stk, g, X.callers⟩
+def Ctxt.at (X : Ctxt) (pc : Nat) (stk g : List Val) (h : List (List Val)) : FSt :=
+  ⟨⟨X.code, X.fd, X.cid, pc, X.base.length⟩, stk, g, h, X.callers⟩
 
-def Ctxt.st (X : Ctxt) (pc : Nat) (ops : List Val) (σ : Sto) : FSt := X.at pc (ops ++ (σ.l.reverse ++ X.base)) σ.g
+def Ctxt.st (X : Ctxt) (pc : Nat) (ops : List Val) (σ : Sto) : FSt := X.at pc (ops ++ (σ.l.reverse ++ X.base)) σ.g σ.h
 
 /-! ## stack arithmetic -/
 
@@ -48,8 +50,8 @@ theorem botTake_base (Y base : List Val) : botTake (Y ++ base) (base.length - 1)
 
 /-! ## lifting the core machine -/
 
-theorem fstep_core {K : List Val} {F : FnDef → Option (List Instr)} {X : Ctxt} {pc : Nat} {stk g : List Val} {t : St}
-    (h : step X.code K ⟨pc, stk, g⟩ = some t) : fstep K F (X.at pc stk g) = some (X.at t.pc t.stk t.g) := by
+theorem fstep_core {K : List Val} {F : FnDef → Option (List Instr)} {X : Ctxt} {pc : Nat} {stk g : List Val} {hp : List (List Val)} {t : St}
+    (h : step X.code K ⟨pc, stk, g⟩ = some t) : fstep K F (X.at pc stk g hp) = some (X.at t.pc t.stk t.g hp) := by
   unfold fstep Ctxt.at
   simp only
   cases hf : fetch X.code pc with
@@ -60,8 +62,8 @@ theorem fstep_core {K : List Val} {F : FnDef → Option (List Instr)} {X : Ctxt}
       | (simp [step, hf] at h; done)
 
 /-- a run of the core machine is a run of the machine with frames, inside any activation whose code it is -/
-theorem FSteps.ofCore {K : List Val} {F : FnDef → Option (List Instr)} {X : Ctxt} {s t : St} (h : Steps X.code K s t) :
-    FSteps K F (X.at s.pc s.stk s.g) (X.at t.pc t.stk t.g) := by
+theorem FSteps.ofCore {K : List Val} {F : FnDef → Option (List Instr)} {X : Ctxt} {s t : St} {hp : List (List Val)} (h : Steps X.code K s t) :
+    FSteps K F (X.at s.pc s.stk s.g hp) (X.at t.pc t.stk t.g hp) := by
   induction h with
   | refl => exact .refl _
   | cons hs _ ih => exact .cons (fstep_core hs) ih
@@ -88,7 +90,7 @@ theorem fstep_getLocal {pc i : Nat} {ops : List Val} {σ : Sto} {v : Val}
 
 theorem fstep_setLocal {pc i : Nat} {ops : List Val} {σ : Sto} {v : Val}
     (h : codeAt X.code pc [Instr.setLocal i]) (hi : i < σ.l.length) :
-    fstep K F (X.st pc (v :: ops) σ) = some (X.st (pc + 2) (v :: ops) ⟨σ.l.set i v, σ.g⟩) := by
+    fstep K F (X.st pc (v :: ops) σ) = some (X.st (pc + 2) (v :: ops) ⟨σ.l.set i v, σ.g, σ.h⟩) := by
   unfold fstep Ctxt.st Ctxt.at
   have hlen : X.base.length + i < (v :: (ops ++ (σ.l.reverse ++ X.base))).length := by simp; omega
   have hset := botSet_st (v :: ops) σ.l X.base i v hi
@@ -97,34 +99,56 @@ theorem fstep_setLocal {pc i : Nat} {ops : List Val} {σ : Sto} {v : Val}
 
 theorem fstep_defLocal {pc i : Nat} {ops : List Val} {σ : Sto} {v : Val}
     (h : codeAt X.code pc [Instr.defLocal i]) (hi : i < σ.l.length) :
-    fstep K F (X.st pc (v :: ops) σ) = some (X.st (pc + 2) ops ⟨σ.l.set i v, σ.g⟩) := by
+    fstep K F (X.st pc (v :: ops) σ) = some (X.st (pc + 2) ops ⟨σ.l.set i v, σ.g, σ.h⟩) := by
   unfold fstep Ctxt.st Ctxt.at
   have hlen : X.base.length + i < (ops ++ (σ.l.reverse ++ X.base)).length := by simp; omega
   simp only [fetch_codeAt h, List.cons_append, hlen, if_true, botSet_st ops σ.l X.base i v hi]
 
-theorem fstep_closure {pc c : Nat} {ops : List Val} {σ : Sto} {fd : FnDef}
-    (h : codeAt X.code pc [Instr.closure c 0]) (hk : K[c]? = some (.func fd)) :
-    fstep K F (X.st pc ops σ) = some (X.st (pc + 4) (.clos fd [] 0 :: ops) σ) := by
+/-- `Closure c n`: the `n` operands on top (the last loaded on top) become the captured values
+of a new closure object, in the order they were loaded -/
+theorem fstep_closure {pc c : Nat} {vs ops : List Val} {σ : Sto} {fd : FnDef}
+    (h : codeAt X.code pc [Instr.closure c vs.length]) (hk : K[c]? = some (.func fd)) :
+    fstep K F (X.st pc (vs.reverse ++ ops) σ) = some (X.st (pc + 4) (.clos fd [] σ.h.length :: ops) ⟨σ.l, σ.g, σ.h ++ [vs]⟩) := by
   unfold fstep Ctxt.st Ctxt.at
-  simp only [fetch_codeAt h, hk, if_true]
+  have hle : vs.length ≤ (vs.reverse ++ ops ++ (σ.l.reverse ++ X.base)).length := by simp
+  have hd : (vs.reverse ++ ops ++ (σ.l.reverse ++ X.base)).drop vs.length = ops ++ (σ.l.reverse ++ X.base) := by
+    rw [List.append_assoc]
+    exact List.drop_left' (by simp)
+  have ht : (vs.reverse ++ ops ++ (σ.l.reverse ++ X.base)).take vs.length = vs.reverse := by
+    rw [List.append_assoc]
+    exact List.take_left' (by simp)
+  simp only [fetch_codeAt h, hk, hle, if_true, hd, ht, List.reverse_reverse]
   rfl
 
 theorem fstep_currClosure {pc : Nat} {ops : List Val} {σ : Sto}
     (h : codeAt X.code pc [Instr.currClosure]) :
-    fstep K F (X.st pc ops σ) = some (X.st (pc + 1) (.clos X.fd [] 0 :: ops) σ) := by
+    fstep K F (X.st pc ops σ) = some (X.st (pc + 1) (.clos X.fd [] X.cid :: ops) σ) := by
   unfold fstep Ctxt.st Ctxt.at
   simp only [fetch_codeAt h]
   rfl
 
+theorem fstep_getFree {pc i : Nat} {ops : List Val} {σ : Sto} {v : Val}
+    (h : codeAt X.code pc [Instr.getFree i]) (hv : freeGet σ.h X.cid i = some v) :
+    fstep K F (X.st pc ops σ) = some (X.st (pc + 2) (v :: ops) σ) := by
+  unfold fstep Ctxt.st Ctxt.at
+  simp only [fetch_codeAt h, hv]
+  rfl
+
+theorem fstep_setFree {pc i : Nat} {ops : List Val} {σ : Sto} {v : Val} {h' : List (List Val)}
+    (h : codeAt X.code pc [Instr.setFree i]) (hv : freeSet σ.h X.cid i v = some h') :
+    fstep K F (X.st pc (v :: ops) σ) = some (X.st (pc + 2) (v :: ops) ⟨σ.l, σ.g, h'⟩) := by
+  unfold fstep Ctxt.st Ctxt.at
+  simp only [fetch_codeAt h, List.cons_append, hv]
+
 /-- the activation a call creates: the callee's code and closure; below its slots the callee
 slot and the caller's stack; the caller's frame (resuming after the `Call`) on the frame stack -/
-def Ctxt.callee (X : Ctxt) (pc : Nat) (code : List Instr) (fd : FnDef) (below : List Val) : Ctxt :=
-  ⟨code, fd, below, ⟨X.code, X.fd, pc + 2, X.base.length⟩ :: X.callers⟩
+def Ctxt.callee (X : Ctxt) (pc : Nat) (code : List Instr) (fd : FnDef) (id : Nat) (below : List Val) : Ctxt :=
+  ⟨code, fd, id, below, ⟨X.code, X.fd, X.cid, pc + 2, X.base.length⟩ :: X.callers⟩
 
-theorem fstep_call {pc n : Nat} {vs rest fr : List Val} {g : List Val} {fd : FnDef} {id : Nat} {code : List Instr}
+theorem fstep_call {pc n : Nat} {vs rest fr : List Val} {g : List Val} {hp' : List (List Val)} {fd : FnDef} {id : Nat} {code : List Instr}
     (h : codeAt X.code pc [Instr.call n]) (hn : vs.length = n) (hp : n = fd.numParams) (hF : F fd = some code) :
-    fstep K F (X.at pc (vs.reverse ++ (.clos fd fr id :: rest)) g) =
-      some ((X.callee pc code fd (.clos fd fr id :: rest)).st 0 [] ⟨vs ++ List.replicate (fd.numLocals - n) .null, g⟩) := by
+    fstep K F (X.at pc (vs.reverse ++ (.clos fd fr id :: rest)) g hp') =
+      some ((X.callee pc code fd id (.clos fd fr id :: rest)).st 0 [] ⟨vs ++ List.replicate (fd.numLocals - n) .null, g, hp'⟩) := by
   unfold fstep Ctxt.st Ctxt.at Ctxt.callee
   have hget : (vs.reverse ++ (Val.clos fd fr id :: rest))[n]? = some (Val.clos fd fr id) := by
     rw [List.getElem?_append_right (by simp [hn])]
@@ -132,17 +156,17 @@ theorem fstep_call {pc n : Nat} {vs rest fr : List Val} {g : List Val} {fd : FnD
   simp only [fetch_codeAt h, hget, ← hp, if_true, hF]
   simp [hn]
 
-theorem fstep_retv {pc : Nat} {Y : List Val} {g : List Val} {v : Val} {c : Act} {cs : List Act}
+theorem fstep_retv {pc : Nat} {Y : List Val} {g : List Val} {hp : List (List Val)} {v : Val} {c : Act} {cs : List Act}
     (h : codeAt X.code pc [Instr.retv]) (hc : X.callers = c :: cs) :
-    fstep K F (X.at pc (v :: (Y ++ X.base)) g) = some ⟨c, v :: X.base.tail, g, cs⟩ := by
+    fstep K F (X.at pc (v :: (Y ++ X.base)) g hp) = some ⟨c, v :: X.base.tail, g, hp, cs⟩ := by
   unfold fstep Ctxt.at
   have := botTake_base (v :: Y) X.base
   simp only [List.cons_append] at this
   simp only [fetch_codeAt h, hc, this]
 
-theorem fstep_ret {pc : Nat} {Y : List Val} {g : List Val} {c : Act} {cs : List Act}
+theorem fstep_ret {pc : Nat} {Y : List Val} {g : List Val} {hp : List (List Val)} {c : Act} {cs : List Act}
     (h : codeAt X.code pc [Instr.ret]) (hc : X.callers = c :: cs) :
-    fstep K F (X.at pc (Y ++ X.base) g) = some ⟨c, .null :: X.base.tail, g, cs⟩ := by
+    fstep K F (X.at pc (Y ++ X.base) g hp) = some ⟨c, .null :: X.base.tail, g, hp, cs⟩ := by
   unfold fstep Ctxt.at
   simp only [fetch_codeAt h, hc, botTake_base Y X.base]
 
